@@ -186,3 +186,22 @@ Lemma C27_idem (eps : R) fixed k es (t t1 : nat -> R) :
   exists t2, constrain RNum eps fixed k es t1 = Some t2 /\ forall u, t2 u = t1 u.
 Proof. intros He Hcf H. eapply constrain_idempotent; eassumption. Qed.
 
+
+(** ** Statements in the exact form used by props/C01.v *)
+Lemma C01_sat (eps : R) fixed k es (t t1 : nat -> R) :
+  children_first es -> constrain RNum eps fixed k es t = Some t1 ->
+  forall p c, In (p, c) es -> t1 c + eps <= t1 p.
+Proof. intros Hcf H p c Hin. exact (constrain_sat eps fixed k es t t1 Hcf H p c Hin). Qed.
+
+Lemma C01_strict (eps : R) fixed k es (t t1 : nat -> R) :
+  0 < eps -> children_first es -> constrain RNum eps fixed k es t = Some t1 ->
+  forall p c, In (p, c) es -> t1 c < t1 p.
+Proof. intros He Hcf H p c Hin. pose proof (C01_sat eps fixed k es t t1 Hcf H p c Hin). lra. Qed.
+
+Lemma C01_forced_sat (T : Type) (le : T -> T -> Prop) (leb : T -> T -> bool) :
+  (forall x y, leb x y = true <-> le x y) -> (forall x, le x x) ->
+  (forall x y z, le x y -> le y z -> le x z) -> (forall x y, le x y \/ le y x) ->
+  forall (bump : T -> T) es t, children_first es ->
+  forall p c, In (p, c) es -> le (bump (forced T leb bump es t c)) (forced T leb bump es t p).
+Proof. intros Hs Hr Ht Htot bump es t Hcf p c Hin.
+  exact (forced_sat T le leb Hs Hr Ht Htot bump es t Hcf p c Hin). Qed.
